@@ -276,9 +276,9 @@ def rule_reset(ctx: Ctx) -> int:
 def run(ctx: Ctx) -> None:
     tree = ctx.tree
     n = rule_prange(ctx, "C18.PRANGE")
-    ctx.floor("C18.PRANGE", n, 10)
+    ctx.floor("C18.PRANGE", n, 6)
     n = rule_switch(ctx, "C18.SWITCH")
-    ctx.floor("C18.SWITCH", n, 9)
+    ctx.floor("C18.SWITCH", n, 6)
     n = rule_shared(ctx)
     ctx.floor("C18.SHARED", n, 15)
     n = rule_reset(ctx)
